@@ -93,19 +93,20 @@ theorem decodeIPv6_enc (h : IPv6Hdr) (rest : Bytes) (hwf : h.WF) :
   simp only [Res.ok.injEq, Prod.mk.injEq, IPv6Hdr.mk.injEq, and_true, true_and, hdrop]
   omega
 
-/-- RFC 793: ports, sequence and acknowledgement numbers, data offset / reserved (0) / nine flag bits,
+/-- RFC 793 / RFC 3540: ports, sequence and acknowledgement numbers, then in octets 12 and 13 the data offset
+(4 bits), the reserved bits `res` (3 bits) and the nine flag bits `fl` (NS | CWR ECE URG ACK PSH RST SYN FIN),
 window, checksum, urgent pointer -/
-def encTCP (sp dp seq ack off fl win cs urg : Nat) : Bytes :=
+def encTCP (sp dp seq ack off res fl win cs urg : Nat) : Bytes :=
   [b8 (sp / 256), b8 (sp % 256), b8 (dp / 256), b8 (dp % 256),
    b8 (seq / 16777216 % 256), b8 (seq / 65536 % 256), b8 (seq / 256 % 256), b8 (seq % 256),
    b8 (ack / 16777216 % 256), b8 (ack / 65536 % 256), b8 (ack / 256 % 256), b8 (ack % 256),
-   b8 (off * 16 + fl / 256), b8 (fl % 256), b8 (win / 256 % 256), b8 (win % 256),
+   b8 (off * 16 + res * 2 + fl / 256), b8 (fl % 256), b8 (win / 256 % 256), b8 (win % 256),
    b8 (cs / 256 % 256), b8 (cs % 256), b8 (urg / 256 % 256), b8 (urg % 256)]
 
-theorem decodeTCP_enc (sp dp seq ack off fl win cs urg : Nat) (rest : Bytes)
-    (hwf : sp < 65536 ∧ dp < 65536 ∧ off < 16 ∧ fl < 512) :
-    decodeTCP (encTCP sp dp seq ack off fl win cs urg ++ rest) = .ok (.tcp sp dp off 0 fl) := by
-  obtain ⟨h1, h2, h3, h4⟩ := hwf
+theorem decodeTCP_enc (sp dp seq ack off res fl win cs urg : Nat) (rest : Bytes)
+    (hwf : sp < 65536 ∧ dp < 65536 ∧ off < 16 ∧ res < 8 ∧ fl < 512) :
+    decodeTCP (encTCP sp dp seq ack off res fl win cs urg ++ rest) = .ok (.tcp sp dp off res fl) := by
+  obtain ⟨h1, h2, h3, h3', h4⟩ := hwf
   rw [decodeTCP_eq _ (by simp [encTCP])]
   simp only [encTCP, List.cons_append, List.nil_append, oct_cons_succ, oct_cons_zero]
   simp (disch := omega) only [b8_toNat]
@@ -249,14 +250,14 @@ theorem decodeNext_udp (d : Bytes) (l4 : L4) (h : decodeUDP d = .ok l4) : decode
     · omega
   simp (disch := omega) [decodeNext, h, from?_le]
 
-theorem dissect_eth_ipv4_tcp_enc (dst src : Bytes) (h : IPv4Hdr) (opts : Bytes) (sp dp seq ack off fl win cs urg : Nat)
+theorem dissect_eth_ipv4_tcp_enc (dst src : Bytes) (h : IPv4Hdr) (opts : Bytes) (sp dp seq ack off res fl win cs urg : Nat)
     (payload : Bytes) (hm : dst.length = 6 ∧ src.length = 6) (hwf : h.WF) (ho : OptsWF opts) (hp : h.protocol = 6)
-    (ht : sp < 65536 ∧ dp < 65536 ∧ off < 16 ∧ fl < 512) :
-    dissect (encEth dst src 0x0800 ++ (encIPv4 h opts ++ (encTCP sp dp seq ack off fl win cs urg ++ payload))) 1 =
-      .ok ⟨⟨src, dst, 0, 0x0800⟩, .v4 h, .tcp sp dp off 0 fl⟩ := by
+    (ht : sp < 65536 ∧ dp < 65536 ∧ off < 16 ∧ res < 8 ∧ fl < 512) :
+    dissect (encEth dst src 0x0800 ++ (encIPv4 h opts ++ (encTCP sp dp seq ack off res fl win cs urg ++ payload))) 1 =
+      .ok ⟨⟨src, dst, 0, 0x0800⟩, .v4 h, .tcp sp dp off res fl⟩ := by
   simp only [dissect, if_true, dissectEth,
     decodeEthernet_enc dst src 0x0800 _ ⟨hm.1, hm.2, by decide, by decide⟩, ok_bind, dissectV4,
-    decodeIPv4_enc h opts _ hwf ho, hp, decodeNext_tcp _ _ (decodeTCP_enc sp dp seq ack off fl win cs urg payload ht), pure_eq]
+    decodeIPv4_enc h opts _ hwf ho, hp, decodeNext_tcp _ _ (decodeTCP_enc sp dp seq ack off res fl win cs urg payload ht), pure_eq]
 
 theorem dissect_vlan_ipv6_udp_enc (dst src : Bytes) (tci : Nat) (h : IPv6Hdr) (sp dp len cs : Nat)
     (payload : Bytes) (hm : dst.length = 6 ∧ src.length = 6 ∧ tci < 65536) (hwf : h.WF) (hp : h.nextHeader = 17)
